@@ -53,8 +53,6 @@ class Reactor(object):
         self.protocol.transport = self
         self.protocol.connection_made()
 
-        self.when_connected.set()
-
     def _select(self):
         '''
         Block (and don't consume CPU) until self.sock or self._outbox is ready
